@@ -74,6 +74,8 @@ func errTextOrigin(p *Prog, v ssa.Value) (leaf ssa.Value, altered bool) {
 func runC06(c *Check, a *Analysis) {
 	p := c.P
 	sc := siteCounter{}
+	ruleHeaderFresh(c, a, "R-HEADER-FRESH")
+	ruleCodeThresholds(c, a, "R-CODE-THRESHOLD")
 
 	// ---- R-MUST-RESPOND
 	c.Rule("R-MUST-RESPOND", "every server failure edge stores err.Error() into Context.Error before the response is sent and the response is still sent", 3)
